@@ -427,11 +427,182 @@ def find_translate(fb):
     return out
 
 
+CELL_INDEX = "(std::option::Option<u32>, std::option::Option<u32>, std::option::Option<bool>, std::option::Option<bool>)"
+
+
+def is_parser(fb, fn, depth=0):
+    """The coordinate parser, or a crate function with the parser's result type that hands on (a filtered view of) what
+    the parser returned (e.g. a wrapper that rejects text which merely starts like a reference)."""
+    if fn.endswith("index_from_coordinate"):
+        return True
+    memo = fb.__dict__.setdefault("_is_parser", {})
+    if fn in memo:
+        return memo[fn]
+    memo[fn] = False
+    b = fb.mir.get(fn)
+    if b and depth < 3 and b["kind"] in ("Fn", "AssocFn") and fb.ty(b["locals"][0]["t"]) == CELL_INDEX:
+        memo[fn] = any(is_parser(fb, t.get("fn", ""), depth + 1) for _, t in fb.calls_in(b))
+    return memo[fn]
+
+
+def _regex_anchored(fb, parser):
+    """Is every regular expression the parser owns anchored at both ends?"""
+    pats = []
+    for d, b in fb.mir.items():
+        if parser + "::" in d or d == parser:
+            fl = Flow(fb, b)
+            for _, t in fl.calls(lambda t: t.get("fn", "").endswith("Regex::new")):
+                pats += [a[1] for a in fl.atoms(t["args"][0]) if a[0] == "const" and isinstance(a[1], str)]
+    return bool(pats) and all(p_.lstrip("(?ixsmU)").startswith("^") and p_.endswith("$") and not p_.endswith("\\$") for p_ in pats), pats
+
+
+def _text_compared(fb, b, fl, parse_bi, text_atoms):
+    """A comparison that decides control flow between the text handed to the parser (and nothing of the parse result)
+    and a value computed from the parse result (the re-rendered reference), or a whole-text predicate on the text."""
+    for bi, t in fl.calls():
+        f = t.get("fn", "")
+        last = f.split("::")[-1]
+        if last in ("eq", "ne") and "PartialEq" in f and len(t["args"]) == 2:
+            ats = [fl.atoms(a) for a in t["args"]]
+            for i in (0, 1):
+                from_parse = any(x[0] == "call" and x[2] == parse_bi for x in ats[i])
+                pure_text = not any(x[0] == "call" and x[2] == parse_bi for x in ats[1 - i]) and bool(text_atoms & ats[1 - i])
+                if from_parse and pure_text and _decides(b, fl, bi):
+                    return "%s at line %s" % (last, t.get("ln"))
+        if last in ("is_address", "is_match") and t["args"] and text_atoms & fl.atoms(t["args"][-1]) and _decides(b, fl, bi):
+            return "%s at line %s" % (last, t.get("ln"))
+    return None
+
+
+def _decides(b, fl, call_bi):
+    for bl in b["blocks"]:
+        t = bl["t"]
+        if t["k"] == "switch" and any(x[0] == "call" and x[2] == call_bi for x in fl.atoms(t["op"])):
+            return True
+    return False
+
+
+def rule_error_table(chk, fb, rid="C09.i"):
+    """The tokenizer leaves its error state only on a literal it knows: every error constant of the formula grammar has
+    to be in its table (extra entries are harmless)."""
+    import importlib.util, os
+
+    _spec = importlib.util.spec_from_file_location("ecma376", os.path.join(os.path.dirname(__file__), "..", "..", "spec", "ecma376.py"))
+    ecma376 = importlib.util.module_from_spec(_spec)
+    _spec.loader.exec_module(ecma376)
+
+    r = chk.rule(rid, "error literals: the table of error constants the tokenizer compares its error state against contains every error constant of the formula grammar (ECMA-376 18.17.2.2)", floor=7)
+    tables = {}
+    for d, h in getattr(fb, "hir_consts", {}).items():
+        if not h["file"].endswith("helper/formula.rs"):
+            continue
+        lits = [x["v"] for x in hirq.walk(h["body"]) if x.get("k") == "lit" and x.get("lt") == "str"]
+        if len(lits) >= 3 and all(v.startswith("#") for v in lits):
+            tables[d] = lits
+    if not tables:
+        chk.ob(r, "anchor", False, where="src/helper/formula.rs", detail="no table of '#...' error literals found among the constants of the formula module")
+        return
+    for d, lits in sorted(tables.items()):
+        for e in ecma376.FORMULA_ERROR_LITERALS:
+            chk.ob(r, "%s:%s" % (d.split("::")[-1], e), e in lits, where="%s:%s" % (fb.hir_consts[d]["file"], fb.hir_consts[d]["line"]), detail="%s %s in %s" % (e, "is" if e in lits else "is MISSING", lits))
+
+
+def rule_set_then_get(chk, fb, rid="C09.j"):
+    """The translated text that set_coordinate stores is the text get_formula returns afterwards.  A formula object has a
+    second text field (the expanded view of a shared formula) that its text getter prefers: storing the plain text into an
+    object that may already carry a view leaves the old view in charge."""
+    FORMULA = "structs::cell_formula::CellFormula"
+    r = chk.rule(
+        rid,
+        "set then get: the formula text getter prefers the shared-formula view over the plain text, so every function outside the formula object that stores plain text into one does so on a freshly built object or also resets the view in the same function (a stale view would shadow the translated formula)",
+        floor=1,
+    )
+    getter = fb.mir.get(FORMULA + "::get_text")
+    if not getter:
+        chk.ob(r, "anchor", False, detail="CellFormula::get_text not found")
+        return
+    read = [e["f"] for bl in getter["blocks"] for st in bl["s"] if st["k"] == "assign" for pl in ([st["rv"].get("place")] if st["rv"]["k"] == "ref" else []) if pl for e in pl.get("pr", []) if isinstance(e, dict) and e.get("of") == FORMULA]
+    read = list(dict.fromkeys(read))
+    if len(read) < 2:
+        chk.note("C09.j: the formula text getter reads a single field (%s): nothing can shadow the plain text" % read)
+        chk.ob(r, "getter-single-field", True, where=fb.loc(FORMULA + "::get_text"), detail="get_text reads %s" % read)
+        return
+    view, plain = read[0], read[-1]
+
+    def setters_of(field):
+        out = set()
+        for d, b in fb.mir.items():
+            if b.get("self_ty") == FORMULA and b["kind"] == "AssocFn" and b["argc"] == 2 and b.get("vis") == "pub":
+                fs = {e["f"] for bl in b["blocks"] for st in bl["s"] if st["k"] == "assign" and st["rv"]["k"] == "ref" and st["rv"].get("mut") for e in st["rv"]["place"].get("pr", []) if isinstance(e, dict) and e.get("of") == FORMULA}
+                if fs == {field}:
+                    out.add(d)
+        return out
+
+    plain_setters, view_setters = setters_of(plain), setters_of(view)
+    n = 0
+    for ps in sorted(plain_setters):
+        for c in sorted({x[0] for x in fb.callers.get(ps, ())}):
+            b = fb.mir.get(c)
+            if not b or b.get("self_ty") == FORMULA or b["file"].startswith("tests") or "::tests::" in c:
+                continue
+            fl = Flow(fb, b)
+            chk.touch(c)
+            resets = any(t.get("fn") in view_setters or (t.get("fn", "").endswith("remove_value") and any(a[0] == "field" and a[2] == view for a in fl.atoms(t["args"][0]))) for _, t in fl.calls())
+            for bi, t in fl.calls(lambda t: t.get("fn") == ps):
+                at = fl.atoms(t["args"][0])
+                fresh = any(a[0] == "call" and a[1].endswith("Default>::default") and FORMULA in a[1] for a in at) and not any(a[0] == "field" and a[1] != FORMULA for a in at) and not any(a[0] == "arg" for a in at)
+                chk.ob(r, "%s->%s#%d" % (c.split("::", 1)[-1], ps.split("::")[-1], n), fresh or resets, where="%s:%s" % (b["file"], t.get("ln")),
+                       detail="plain text stored into %s; view reset in the same function: %s" % ("a freshly built formula object" if fresh else "an object that may already exist (%s)" % sorted(a for a in at if a[0] in ("field", "arg"))[:3], resets))
+                n += 1
+
+
+def rule_whole_reference(chk, fb, kernels, rid, floor=1):
+    """A name that merely starts like a reference (Q1_SALES, FY23_TOTAL) is not one: the kernels rewrite a piece of an
+    operand only when the parser's answer accounts for the whole piece."""
+    r = chk.rule(
+        rid,
+        "only whole references are rewritten: wherever a formula kernel feeds a piece of a range operand to the coordinate parser, either the parser's pattern is anchored at both ends, or the parse result is accepted only after a comparison of the piece with the reference re-rendered from the result (or a whole-text predicate), in the kernel or in the wrapper it calls",
+        floor=floor,
+    )
+    for d in sorted(kernels):
+        b = fb.mir[d]
+        fl = Flow(fb, b)
+        chk.touch(d)
+        n = 0
+        for bi, t in fl.calls(lambda t: is_parser(fb, t.get("fn", ""))):
+            f = t["fn"]
+            how = None
+            root = f
+            # the raw parser behind wrappers
+            anchored, pats = _regex_anchored(fb, "helper::coordinate::index_from_coordinate")
+            if anchored:
+                how = "the parser's pattern is anchored (%s)" % pats
+            if how is None and t["args"]:
+                ta = {x for x in fl.atoms(t["args"][0], stop_calls=lambda g: g in fb.mir) if x[0] in ("arg", "call")}
+                how = _text_compared(fb, b, fl, bi, ta)
+            if how is None and f in fb.mir and not f.endswith("index_from_coordinate"):
+                wb = fb.mir[f]
+                wfl = Flow(fb, wb)
+                for wbi, wt in wfl.calls(lambda t: is_parser(fb, t.get("fn", ""))):
+                    ta = {x for x in wfl.atoms(wt["args"][0], stop_calls=lambda g: g in fb.mir) if x[0] == "arg"} if wt["args"] else set()
+                    how = _text_compared(fb, wb, wfl, wbi, ta)
+                    if how:
+                        how += " in %s" % f.split("::")[-1]
+                        break
+            chk.ob(r, "%s:whole-reference#%d" % (d.split("::")[-1], n), how is not None, where="%s:%s" % (b["file"], t.get("ln")),
+                   detail="the piece is rewritten only if it is a reference as a whole: %s" % (how or "NO whole-text test - the parser's pattern is unanchored (%s), so a name like Q1_SALES is read as Q1 and replaced by it" % pats))
+            n += 1
+
+
+_FB = []
+
+
 def STOP(fn):
-    return fn.endswith("index_from_coordinate")
+    return fn.endswith("index_from_coordinate") or (bool(_FB) and is_parser(_FB[0], fn))
 
 
 def rule_translate(chk, fb, d):
+    _FB[:] = [fb]
     body = fb.mir[d]
     cfg = CFG(body)
     fl = Flow(fb, body)
@@ -442,7 +613,7 @@ def rule_translate(chk, fb, d):
         floor=6,
     )
     # the coordinate parser call and its result local
-    parse_calls = [(bi, t) for bi, t in fl.calls() if t.get("fn", "").endswith("index_from_coordinate")]
+    parse_calls = [(bi, t) for bi, t in fl.calls() if is_parser(fb, t.get("fn", ""))]
     if not parse_calls:
         return
     # user locals that are initialised from field 0 / 1 of the parse result (col / row component)
@@ -547,7 +718,7 @@ def one_sided(chk, fb, d, rid_prefix):
         fields = sorted(x[2] for x in a if x[0] == "field" and x[1] == "tuple")
         if len(fields) != 1 or fields[0] not in ("0", "1"):
             continue
-        if not any(x[0] == "call" and x[1].endswith("index_from_coordinate") for x in fl.atoms(t["args"][0])):
+        if not any(x[0] == "call" and is_parser(fb, x[1]) for x in fl.atoms(t["args"][0])):
             continue
         f = fields[0]
         guarded = False
@@ -620,11 +791,15 @@ def rule_set_coordinate(chk, fb):
 
 
 def run(chk, fb, tier):
+    _FB[:] = [fb]
     toks = find_tokenizer(fb)
     chk.rule("C09.anchor", "anchors located by role (tokenizer, translation kernel)", floor=2)
     for d in toks:
         chk.ob("C09.anchor", "tokenizer:" + d, True, where=fb.loc(d), nontrivial=False)
     trs = find_translate(fb)
+    rule_whole_reference(chk, fb, trs, "C09.h")
+    rule_error_table(chk, fb)
+    rule_set_then_get(chk, fb)
     for d in trs:
         chk.ob("C09.anchor", "translate:" + d, True, where=fb.loc(d), nontrivial=False)
     for d in toks:
